@@ -110,7 +110,7 @@ fn base_case(t: &mut Tape, tapes: &[Vec<u32>], cfg: Cfg, reqs: Vec<Req>) -> Pair
 }
 
 pub fn plain_cfg() -> Cfg {
-    Cfg { initial_window: None, conn_window: None, max_frame: None, header_table: None, max_header_list: None, max_concurrent: None, max_send_buffer: None, reset_max: None, reset_dur_zero: false, enable_push: None }
+    Cfg { initial_window: None, conn_window: None, max_frame: None, header_table: None, max_header_list: None, max_concurrent: None, max_send_buffer: None, reset_max: None, reset_dur_zero: false, enable_push: None, initial_stream_id: None }
 }
 
 fn req_fields(stream: u32, method: &str) -> Vec<(String, String)> {
